@@ -48,12 +48,15 @@ def main():
             try:
                 if enc.startswith('safe:'):
                     from replay_unpack.core import safe_pickle
-                    safe_pickle.loads(bytes.fromhex(hx), encoding=enc[5:])
+                    res = safe_pickle.loads(bytes.fromhex(hx), encoding=enc[5:])
                 elif enc == 'default':
-                    pickle.loads(bytes.fromhex(hx))
+                    res = pickle.loads(bytes.fromhex(hx))
                 else:
-                    pickle.loads(bytes.fromhex(hx), encoding=enc)
+                    res = pickle.loads(bytes.fromhex(hx), encoding=enc)
                 out['end'] = 'stop'
+                # a payload that ends right after naming a global returns the object it located (audit events can be bypassed, the result cannot)
+                if callable(res) or isinstance(res, type) or type(res).__name__ == 'module':
+                    out['result'] = [str(getattr(res, '__module__', None)), str(getattr(res, '__qualname__', None) or getattr(res, '__name__', None))]
             except Exception as e:
                 out['end'] = 'error'
                 out['exc'] = type(e).__name__
